@@ -192,3 +192,38 @@ SPECS["C19"] = {
                       "stub; oracles recomputed from the recorded deviates"),
     },
 }
+
+SPECS["C10"] = {
+    "parts": [{"engine": "wcssim", "mode": "", "quick": 5000, "thorough": 250000}],
+    "cap_quick": 150, "cap_thorough": 3000,
+    "rule": ("one run = one random header (TAN, TPV incl. the old scamp RA---TAN spelling, TAN-SIP order 2-4; random CD "
+             "rotation/flip/scale, reference point anywhere incl. poles and the RA seam, reference pixel inside or far "
+             "outside the image, distortion of 0.1-30 pixel) and ONE WCS object on which 1-3 interleaved logical callers "
+             "issue image2sky / round trips through sky2image(find, distort) / get_jacobian calls with scalar and array "
+             "inputs; perturbations: calls that raise half-way through the vectorised root finder, non-finite inputs, sky "
+             "positions far from the field, the lazy inverse fit arriving first/late/never. Non-trivial = at least one "
+             "perturbation fired; distinct = distinct event-log digests among those"),
+    "state_measure": ("state = (projection, inverse fit built?, outcome of last call, last input shape class); transition = "
+                      "(state, call kind, flags)"),
+    "real": ["esutil.wcsutil.WCS and helpers", "scipy.optimize.fsolve", "numpy.linalg"],
+    "stub": [],
+    "expect_reach": ["interleaved_callers_on_one_object", "call_after_aborted_call", "call_aborted_half_way",
+                     "scalar_array_alternation", "lazy_inverse_fit_built_late", "lazy_inverse_fit_built_first",
+                     "non_finite_input", "sky_position_far_from_the_field"],
+    "assumptions": ["clean-room reference: pixel offset, CD matrix, TPV/SIP polynomial in the convention's order, t + xi*e + "
+                    "eta*n normalised (extended precision)",
+                    "crval2 = +90 exactly is only generated with an explicit LONPOLE=180 (the FITS default differs there)",
+                    "for find=False the statement gives no number: judged against the fresh-object value and against "
+                    "max(1e-3 px, half the error of ignoring the distortion)",
+                    "dict headers with lower-case keys; thread-level sharing of one object is not claimed by the property"],
+    "manifest": {
+        "design_ref": "3.2",
+        "level_text": ("seeded search over headers x positions x call histories on one shared object: every result is compared "
+                       "bit-for-bit with the same call on a fresh object (history independence), image2sky with a clean-room "
+                       "FITS-WCS reference (1e-9 deg), round trips to 1e-6 pixel. Sampling, not proof."),
+        "level_note": ("trusts the clean-room reference and scipy's fsolve; <=15 calls per history, <=16 points per call; "
+                       "distortions of realistic magnitude (<=30 px, Jacobian within 5% of identity)"),
+        "technique": ("deterministic simulation: seeded interleaving of callers on one stateful object with injected aborted "
+                      "calls; fresh-object-per-call reference model + clean-room reference"),
+    },
+}
